@@ -888,6 +888,20 @@ class Builder:
 
         g = self.g
         nd = self.case["nodes"][node_id]
+        if nd["op"] == "convert_records":
+            # same record keys, same output columns, but every key label reads the NEXT value column: a different
+            # result behind identical column requests (steps without their own cache key must not be shared)
+            import copy as _copy
+
+            bo = (nd["record_map"] or {}).get("blocks_out")
+            if nd["record_map"].get("blocks_in") is None and bo and len(bo["control_table"]["rows"]) >= 2:
+                new_nd = _copy.deepcopy(nd)
+                rows = new_nd["record_map"]["blocks_out"]["control_table"]["rows"]
+                srcs = [r[1] for r in rows]
+                for r, s in zip(rows, srcs[1:] + srcs[:1]):
+                    r[1] = s
+                return self.add(new_nd)
+            return None
         kinds = {
             "order_rows": ["reverse", "limit", "order_cols_order"],
             "extend": ["lit_value", "operator", "method", "column_ref", "reverse", "partition_by", "order_by"],
@@ -1006,7 +1020,10 @@ def draw_program(draw, cfg=None):
             c = nc if nc is not None else c
         elif g.boolean(0.4):
             # twin branches: A ends in a step, C is the same step with one parameter changed
-            a2 = b.grow(p, 1, weights={"order_rows": 4, "extend": 3, "ordered_window": 2, "select_rows": 2, "window": 1}, wander=0)
+            tw = {"order_rows": 4, "extend": 3, "ordered_window": 2, "select_rows": 2, "window": 1}
+            if b.weights.get("convert_records", 0) > 0 and "convert_records" not in g.closed:
+                tw["convert_records"] = 3
+            a2 = b.grow(p, 1, weights=tw, wander=0)
             t = b.twin(a2) if a2 != p else None
             if t is not None:
                 a, c = a2, t
